@@ -670,6 +670,13 @@ func (g *graph) compile(ctx context.Context, opt *graphCompileOptions) (*composa
 		}
 	}
 
+	// a passthrough node without any edge never got a type either
+	for key, node := range g.nodes {
+		if node.inputType() == nil || node.outputType() == nil {
+			return nil, fmt.Errorf("node[%s]'s input or output types cannot be inferred", key)
+		}
+	}
+
 	for key := range g.fieldMappingRecords {
 		// not allowed to map multiple fields to the same field
 		toMap := make(map[string]bool)
